@@ -273,9 +273,12 @@ def run_case(case):
                         'unpivot': lambda: d.unpivot([{'name': 'v', 'keys': {'k': 'V'}}, {'name': 'x', 'keys': {'k': 'X'}}],
                                                      [{'name': 'k', 'type': 'string'}], {'name': 'val', 'type': 'integer'},
                                                      regex=False)}[opk]()
-            mk = lambda e: [lab.source('t', fl, rows), d.set_primary_key(list(pk)), pk_step()] + \
+            fk = rng.random() < 0.5
+            fk_steps = [d.update_schema('t', foreignKeys=[{'fields': [kf], 'reference': {'resource': '', 'fields': ['id']}}])] \
+                if fk else []
+            mk = lambda e: [lab.source('t', fl, rows), d.set_primary_key(list(pk))] + copy.deepcopy(fk_steps) + [pk_step()] + \
                 ([d.deduplicate()] if tail == 'deduplicate' else [])                               # noqa: E731
-            label = 'pk_then_field_op/%s/%s' % (opk, tail)
+            label = 'pk_then_field_op/%s/%s%s' % (opk, tail, '/foreign_key' if fk else '')
         elif kind == 'rename_chain':
             rows = typed_table(rng, [('a', 'integer'), ('b', 'string'), ('c', 'number')], 6)
             fl = [{'name': 'id', 'type': 'integer'}, {'name': 'a', 'type': 'integer'}, {'name': 'b', 'type': 'string'},
